@@ -108,5 +108,7 @@ k('C13', 'result-string-round-trip|Quantity|str.g.num*|empty|unit=', "toQuantity
 k('C13', "result-string-round-trip|Quantity|str.g.quantity|empty|unit= 'mg", "toQuantity() of a quantity string with more than one space before a quoted unit (5, two spaces, 'mg') keeps the extra space and the opening quote in the unit; the result does not read back from its own string. Trimming the white space is what TestToQuantity forbids ('100           km' must keep its spaces), so recorded, not repaired", {'src': "a string holding 5, two spaces and the quoted unit mg, then .toQuantity()", 'got': "unit is [space][quote]mg", 'want': "unit mg"})
 FIXED.append("fixed: property=C13 5a2ec44 a microsecond-precision FHIR dateTime or time element converted to a System value that printed milliseconds but kept the microseconds (x.toString().toDateTime() = x was false; instants were unaffected); found after microsecond elements were added to the C13 items (pointed out by the C13 sub-agents)")
 FIXED.append("fixed: property=C18 0ecdb41 patch.Delete(res, 'Patient.contained[0].id'), Replace and Add on elements inside a contained resource returned nil and left the resource unchanged (the evaluator hands out a decoded copy of the packed resource); they now fail with ErrNotPatchable; pointed out by the C18 sub-agent, covered by the new contained-targets sub-space")
+FIXED.append("fixed: property=C18 540625a patch.Delete(bundle, 'Bundle.entry[0].resource.contained[0].name[0]') returned nil without a change (the contained-copy guard looked at the root resource's own contained list only); pointed out by the C18 sub-agent")
+FIXED.append("fixed: property=C01 fcbf6dc a Bundle entry whose ContainedResource wrapper holds no resource made Bundle.entry.resource, Bundle.descendants(), Bundle.entry.children() and every patch operation below it panic (nil dereference in unwrapOneof); pointed out by the C01 sub-agent, covered by the new degenerate-resources sub-space")
 if __name__ == '__main__':
     write()
